@@ -21,6 +21,7 @@ import (
 	"io"
 	"os"
 	"path/filepath"
+	"reflect"
 	"sort"
 	"strconv"
 	"strings"
@@ -562,16 +563,6 @@ func (r *rewriter) rewriteFile() {
 			case unsupportedPkgs[path]:
 				r.unsupported(x, full+" (package outside the simulator's control)")
 			}
-		case *ast.SelectStmt:
-			r.unsupported(x, "select statement")
-		case *ast.SendStmt:
-			r.unsupported(x, "channel send")
-		case *ast.ChanType:
-			r.unsupported(x, "channel type")
-		case *ast.UnaryExpr:
-			if x.Op == token.ARROW {
-				r.unsupported(x, "channel receive")
-			}
 		}
 		return true
 	})
@@ -592,19 +583,15 @@ func (r *rewriter) rewriteFile() {
 				r.fn = r.p.pkg.Name() + ".<init>"
 				for _, s := range x.Specs {
 					vs := s.(*ast.ValueSpec)
-					for _, v := range vs.Values {
-						ast.Inspect(v, func(n ast.Node) bool {
-							if fl, ok := n.(*ast.FuncLit); ok {
-								r.block(fl.Body)
-								return false
-							}
-							return true
-						})
+					for i := range vs.Values {
+						vs.Values[i] = r.expr(vs.Values[i], mRd)
 					}
 				}
 			}
 		}
 	}
+	// pass C: remaining channel TYPES (fields, parameters, variables, conversions)
+	r.replaceChanTypes(r.file)
 	// imports: add simrt, drop imports that are no longer referenced
 	used := map[string]bool{}
 	ast.Inspect(r.file, func(n ast.Node) bool {
@@ -704,6 +691,20 @@ func (r *rewriter) stmt(s ast.Stmt) ast.Stmt {
 	case nil:
 		return nil
 	case *ast.AssignStmt:
+		if len(x.Lhs) == 2 && len(x.Rhs) == 1 {
+			if u, ok := unparen(x.Rhs[0]).(*ast.UnaryExpr); ok && u.Op == token.ARROW {
+				x.Rhs[0] = &ast.CallExpr{Fun: &ast.SelectorExpr{X: r.expr(u.X, mRd), Sel: ast.NewIdent("Recv2")}}
+				if x.Tok != token.DEFINE {
+					for i := range x.Lhs {
+						if id, ok := x.Lhs[i].(*ast.Ident); ok && id.Name == "_" {
+							continue
+						}
+						x.Lhs[i] = r.expr(x.Lhs[i], mWr)
+					}
+				}
+				return x
+			}
+		}
 		for i := range x.Rhs {
 			x.Rhs[i] = r.expr(x.Rhs[i], mRd)
 		}
@@ -793,8 +794,12 @@ func (r *rewriter) stmt(s ast.Stmt) ast.Stmt {
 	case *ast.LabeledStmt:
 		x.Stmt = r.stmt(x.Stmt)
 	case *ast.BranchStmt, *ast.EmptyStmt:
-	case *ast.SendStmt, *ast.SelectStmt, *ast.CommClause:
-		// already reported as unsupported
+	case *ast.SendStmt:
+		ch := r.expr(x.Chan, mRd)
+		v := r.expr(x.Value, mRd)
+		return &ast.ExprStmt{X: &ast.CallExpr{Fun: &ast.SelectorExpr{X: ch, Sel: ast.NewIdent("Send")}, Args: []ast.Expr{v}}}
+	case *ast.SelectStmt:
+		return r.selectStmt(x)
 	default:
 		r.unsupported(s, fmt.Sprintf("statement %T", s))
 	}
@@ -804,6 +809,29 @@ func (r *rewriter) stmt(s ast.Stmt) ast.Stmt {
 func (r *rewriter) rangeStmt(x *ast.RangeStmt) ast.Stmt {
 	info := r.info()
 	t := info.TypeOf(x.X)
+	if _, isChan := t.Underlying().(*types.Chan); isChan {
+		// for v := range ch  ->  for { v, ok := ch.Recv2(); if !ok { break }; body }
+		r.tmp++
+		okId := ast.NewIdent(fmt.Sprintf("simOk%d", r.tmp))
+		var lhs ast.Expr = ast.NewIdent("_")
+		tok := token.DEFINE
+		if x.Key != nil {
+			lhs = x.Key
+			if x.Tok == token.ASSIGN {
+				lhs = r.expr(x.Key, mWr)
+			}
+		}
+		var pre []ast.Stmt
+		recv := &ast.CallExpr{Fun: &ast.SelectorExpr{X: r.expr(x.X, mRd), Sel: ast.NewIdent("Recv2")}}
+		if x.Tok == token.ASSIGN && x.Key != nil {
+			pre = append(pre, &ast.DeclStmt{Decl: &ast.GenDecl{Tok: token.VAR, Specs: []ast.Spec{&ast.ValueSpec{Names: []*ast.Ident{okId}, Type: ast.NewIdent("bool")}}}})
+			tok = token.ASSIGN
+		}
+		pre = append(pre, &ast.AssignStmt{Lhs: []ast.Expr{lhs, okId}, Tok: tok, Rhs: []ast.Expr{recv}})
+		pre = append(pre, &ast.IfStmt{Cond: &ast.UnaryExpr{Op: token.NOT, X: ast.NewIdent(okId.Name)}, Body: &ast.BlockStmt{List: []ast.Stmt{&ast.BranchStmt{Tok: token.BREAK}}}})
+		r.block(x.Body)
+		return &ast.ForStmt{Body: &ast.BlockStmt{List: append(pre, x.Body.List...)}}
+	}
 	_, isMap := t.Underlying().(*types.Map)
 	if !isMap {
 		x.X = r.expr(x.X, mRd)
@@ -861,6 +889,141 @@ func (r *rewriter) rangeStmt(x *ast.RangeStmt) ast.Stmt {
 		out.Key, out.Value, out.Tok = nil, nil, token.ILLEGAL
 	}
 	return out
+}
+
+// selectStmt rewrites
+//
+//	select { case v, ok := <-a: A; case b <- x: B; default: D }
+//
+// into
+//
+//	{ s0 := simrt.NewSlot(a); switch simrt.Select(true, s0.Recv(), simrt.SendCase(b, x)) {
+//	  case 0: v, ok := s0.V, s0.Ok; A;  case 1: B;  default: D } }
+//
+// (channel and value expressions are evaluated once, in source order, as Go does).
+func (r *rewriter) selectStmt(x *ast.SelectStmt) ast.Stmt {
+	var pre []ast.Stmt
+	var cases []ast.Expr
+	var clauses []ast.Stmt
+	hasDefault := false
+	idx := 0
+	for _, cl := range x.Body.List {
+		cc := cl.(*ast.CommClause)
+		r.stmts(cc.Body)
+		if cc.Comm == nil {
+			hasDefault = true
+			clauses = append(clauses, &ast.CaseClause{List: nil, Body: cc.Body})
+			continue
+		}
+		var body []ast.Stmt
+		switch c := cc.Comm.(type) {
+		case *ast.SendStmt:
+			cases = append(cases, &ast.CallExpr{Fun: r.simrtSel("SendCase"), Args: []ast.Expr{r.expr(c.Chan, mRd), r.expr(c.Value, mRd)}})
+		case *ast.ExprStmt, *ast.AssignStmt:
+			var recv *ast.UnaryExpr
+			var lhs []ast.Expr
+			tok := token.DEFINE
+			if es, ok := c.(*ast.ExprStmt); ok {
+				recv, _ = unparen(es.X).(*ast.UnaryExpr)
+			} else {
+				as := c.(*ast.AssignStmt)
+				recv, _ = unparen(as.Rhs[0]).(*ast.UnaryExpr)
+				lhs, tok = as.Lhs, as.Tok
+			}
+			if recv == nil || recv.Op != token.ARROW {
+				r.unsupported(cc, "select clause that is not a send or a receive")
+				continue
+			}
+			r.tmp++
+			slot := fmt.Sprintf("simSlot%d", r.tmp)
+			pre = append(pre, &ast.AssignStmt{Lhs: []ast.Expr{ast.NewIdent(slot)}, Tok: token.DEFINE,
+				Rhs: []ast.Expr{&ast.CallExpr{Fun: r.simrtSel("NewSlot"), Args: []ast.Expr{r.expr(recv.X, mRd)}}}})
+			cases = append(cases, &ast.CallExpr{Fun: &ast.SelectorExpr{X: ast.NewIdent(slot), Sel: ast.NewIdent("Recv")}})
+			if len(lhs) > 0 {
+				rhs := []ast.Expr{&ast.SelectorExpr{X: ast.NewIdent(slot), Sel: ast.NewIdent("V")}}
+				if len(lhs) == 2 {
+					rhs = append(rhs, &ast.SelectorExpr{X: ast.NewIdent(slot), Sel: ast.NewIdent("Ok")})
+				}
+				if tok != token.DEFINE {
+					for i := range lhs {
+						if id, ok := lhs[i].(*ast.Ident); ok && id.Name == "_" {
+							continue
+						}
+						lhs[i] = r.expr(lhs[i], mWr)
+					}
+				}
+				allBlank := true
+				for _, l := range lhs {
+					if id, ok := l.(*ast.Ident); !ok || id.Name != "_" {
+						allBlank = false
+					}
+				}
+				if allBlank {
+					tok = token.ASSIGN
+				}
+				body = append(body, &ast.AssignStmt{Lhs: lhs, Tok: tok, Rhs: rhs})
+			}
+		}
+		clauses = append(clauses, &ast.CaseClause{List: []ast.Expr{&ast.BasicLit{Kind: token.INT, Value: strconv.Itoa(idx)}}, Body: append(body, cc.Body...)})
+		idx++
+	}
+	def := "false"
+	if hasDefault {
+		def = "true"
+	}
+	sel := &ast.CallExpr{Fun: r.simrtSel("Select"), Args: append([]ast.Expr{ast.NewIdent(def)}, cases...)}
+	sw := &ast.SwitchStmt{Tag: sel, Body: &ast.BlockStmt{List: clauses}}
+	return &ast.BlockStmt{List: append(pre, sw)}
+}
+
+// replaceChanTypes turns every remaining `chan T` type expression into *simrt.Chan[T].
+func (r *rewriter) replaceChanTypes(n ast.Node) {
+	var visit func(v reflect.Value)
+	exprT := reflect.TypeOf((*ast.Expr)(nil)).Elem()
+	conv := func(e ast.Expr) (ast.Expr, bool) {
+		ct, ok := e.(*ast.ChanType)
+		if !ok {
+			return e, false
+		}
+		return &ast.StarExpr{X: &ast.IndexExpr{X: r.simrtSel("Chan"), Index: ct.Value}}, true
+	}
+	seen := map[uintptr]bool{}
+	visit = func(v reflect.Value) {
+		switch v.Kind() {
+		case reflect.Interface:
+			if v.IsNil() {
+				return
+			}
+			if v.Type() == exprT && v.CanSet() {
+				for {
+					ne, changed := conv(v.Interface().(ast.Expr))
+					if !changed {
+						break
+					}
+					v.Set(reflect.ValueOf(ne))
+				}
+			}
+			visit(v.Elem())
+		case reflect.Ptr:
+			if v.IsNil() || seen[v.Pointer()] {
+				return
+			}
+			if _, isObj := v.Interface().(*ast.Object); isObj {
+				return
+			}
+			seen[v.Pointer()] = true
+			visit(v.Elem())
+		case reflect.Struct:
+			for i := 0; i < v.NumField(); i++ {
+				visit(v.Field(i))
+			}
+		case reflect.Slice:
+			for i := 0; i < v.Len(); i++ {
+				visit(v.Index(i))
+			}
+		}
+	}
+	visit(reflect.ValueOf(n))
 }
 
 // ---------------------------------------------------------------------------
@@ -1122,7 +1285,9 @@ func (r *rewriter) expr(e ast.Expr, mode int) ast.Expr {
 			return x
 		case *types.Slice, *types.Pointer:
 			name := r.describe(x.X) + "[]"
-			shared := r.sharedBase(x.X)
+			// element reads are tracked for every slice except never-written package tables: a local slice
+			// variable may alias shared memory (a sub-slice of a cached table, a shared workspace)
+			shared := !r.neverWrittenGlobal(x.X)
 			x.X = r.expr(x.X, mRd)
 			x.Index = r.expr(x.Index, mRd)
 			if mode == mWr || (mode == mRd && shared) {
@@ -1176,6 +1341,9 @@ func (r *rewriter) expr(e ast.Expr, mode int) ast.Expr {
 				x.X = r.expr(x.X, mAddr)
 			}
 			return x
+		}
+		if x.Op == token.ARROW {
+			return &ast.CallExpr{Fun: &ast.SelectorExpr{X: r.expr(x.X, mRd), Sel: ast.NewIdent("Recv")}}
 		}
 		x.X = r.expr(x.X, mRd)
 		return x
@@ -1240,6 +1408,27 @@ func (r *rewriter) call(x *ast.CallExpr) ast.Expr {
 				return x
 			case "make":
 				for i := 1; i < len(x.Args); i++ {
+					x.Args[i] = r.expr(x.Args[i], mRd)
+				}
+				if ct, ok := x.Args[0].(*ast.ChanType); ok {
+					return &ast.CallExpr{Fun: &ast.IndexExpr{X: r.simrtSel("MakeChan"), Index: ct.Value}, Args: x.Args[1:]}
+				}
+				if t := info.TypeOf(x.Args[0]); t != nil {
+					if _, isChan := t.Underlying().(*types.Chan); isChan {
+						r.unsupported(x, "make of a named channel type")
+					}
+				}
+				return x
+			case "close", "len", "cap":
+				if len(x.Args) == 1 {
+					if t := info.TypeOf(x.Args[0]); t != nil {
+						if _, isChan := t.Underlying().(*types.Chan); isChan {
+							m := map[string]string{"close": "Close", "len": "Len", "cap": "Cap"}[b.Name()]
+							return &ast.CallExpr{Fun: &ast.SelectorExpr{X: r.expr(x.Args[0], mRd), Sel: ast.NewIdent(m)}}
+						}
+					}
+				}
+				for i := range x.Args {
 					x.Args[i] = r.expr(x.Args[i], mRd)
 				}
 				return x
